@@ -139,6 +139,11 @@ func (prx *linkedIPProxy) ServeHTTP(w http.ResponseWriter, r *http.Request) {
 		hdr.Del(httphdr.TrueClientIP)
 		hdr.Del(httphdr.XRealIP)
 
+		// Do not let clients switch protocols, since the proxy only passes the
+		// data between the client and the backend without any filtering once
+		// the backend has agreed to switch.
+		hdr.Del("Upgrade")
+
 		// Set the real IP.
 		ip, err := netutil.SplitHost(rAddr)
 		if err != nil {
